@@ -530,7 +530,9 @@ func RunStress(t int, sc *StressCase, out *ndj.Writer, workdir string, watchdog,
 	for _, f := range sc.Faults {
 		w.SetFault(f, true)
 	}
-	ctl.LatUs, ctl.LongPct, ctl.LongMs = sc.LatUs, sc.LongPct, sc.LongMs // preparation ran without latency
+	ctl.LongPct.Store(int32(sc.LongPct)) // preparation ran without latency
+	ctl.LongMs.Store(int32(sc.LongMs + 1))
+	ctl.LatUs.Store(int32(sc.LatUs))
 	ctl.Emit("reset", Ev{"name": sc.Name, "mode": "stress", "watcher": sc.Watcher, "role": sc.Role, "stage": sc.Stage, "csv": sc.Csv, "restart": sc.Restart, "entries": sc.Entries})
 	start := make(chan struct{})
 	for i, e := range sc.Entries {
@@ -634,7 +636,7 @@ func GenStress(seed int64, rounds int, entries []string) []*StressCase {
 	// watcher's registries (AddWaitForCsvTx -> addCsvTx, TxClaimed, AddWaitForConfirmationTx, Register), with a
 	// CSV watch already registered, repeatedly and with different latencies of the chain servers.
 	for r := 0; r < rounds; r++ {
-		for k := 0; k < 24; k++ {
+		for k := 0; k < 36; k++ {
 			role := []string{"in_sender", "out_receiver"}[rng.Intn(2)]
 			c := &StressCase{Watcher: []string{"rpc", "rpc-lbtc", "rpc", "el"}[k%4], Role: role, Csv: []string{"not", "edge"}[rng.Intn(2)]}
 			switch k % 3 {
@@ -666,6 +668,9 @@ func GenStress(seed int64, rounds int, entries []string) []*StressCase {
 		c.LatUs = []int{500, 2000, 4000}[rng.Intn(3)]
 		c.LongPct = []int{0, 10, 25}[rng.Intn(3)]
 		c.LongMs = 10 + rng.Intn(30)
+		if strings.Contains(c.Name, "/focus") { // a slow node: the block handler's RPC often outlasts the message handler
+			c.LatUs, c.LongPct, c.LongMs = 3000, 40, 20+rng.Intn(20)
+		}
 	}
 	rng.Shuffle(len(out), func(i, j int) { out[i], out[j] = out[j], out[i] })
 	return out
